@@ -112,6 +112,17 @@ def evalOp (st : DState) (m : Mode) (op : String) (a : List Tok) : Option (DStat
     let s := PLL.update ⟨x, y0, f0, f, y⟩ i k
     pure' (ints [s.x, s.y0, s.f0, s.f, s.y])
   -- lowpass
+  -- `Filter::set` / `Filter::get` of Lowpass, `Cic::tick`, the special biquads, `block_size()` of the half-band stages:
+  -- definitions the theorems use that no update op exercises
+  | "lp_set", [.int s0, .int x] => let _ := s0; pure' (toString (lpSet x))
+  | "lp_get", [.int s0] => pure' (toString (lpGet s0))
+  | "cic_tick", [.int rate, .int idx] => pure' (toString (Cic.tick ⟨rate, idx, 0, [], []⟩))
+  | "bq_special", [.int w, .int q, .int k] =>
+    let sh := fun (c : BiquadCfg) => ints [c.b0, c.b1, c.b2, c.a1, c.a2, c.u, c.mn, c.mx]
+    pure' (sp [sh (BiquadCfg.identity w.toNat q.toNat), sh (BiquadCfg.hold w.toNat q.toNat), sh (BiquadCfg.proportional w.toNat k)])
+  | "hbf_bmax", [.int kind, .int n, .int mtaps] =>
+    let taps : List Int := List.replicate mtaps.toNat 0
+    pure' (toString (if kind == 0 then (HbfDec.new opsInt n.toNat taps).blockMax else (HbfInt.new opsInt n.toNat taps).blockMax))
   | "lp1", [.int s0, .int x, .int k] =>
     pure' (rshow (fun (s, y) => ints [s, y]) (lp1Update m s0 x k))
   | "lp2", [.int s0, .int s1, .int x, .int k0, .int k1] =>
